@@ -2212,6 +2212,9 @@ class _Simu(_IObserver, _params.Updatable, ABC):
 
     def Bc_Init(self) -> None:
         """Initializes Dirichlet, Neumann and Lagrange boundary conditions"""
+        # the size of the assembled system includes the Lagrange multipliers
+        if len(getattr(self, "_Simu__Bc_Lagrange", [])) > 0:
+            self.Need_Update()
         # DIRICHLET
         self.__Bc_Dirichlet: list[BoundaryCondition] = []
         """Dirichlet conditions list[BoundaryCondition]"""
@@ -3063,6 +3066,9 @@ class _Simu(_IObserver, _params.Updatable, ABC):
         )
 
         self.__Bc_Dirichlet.append(new_Bc)
+        if len(self.__Bc_Lagrange) > 0:
+            # with Lagrange conditions every Dirichlet dof adds a multiplier to the assembled system
+            self.Need_Update()
 
         tic.Tac("Boundary Conditions", "Add Dirichlet condition", self._verbosity)
 
